@@ -17,6 +17,13 @@ pub struct C11Case(pub BuilderConfig);
 
 /// `vcheck build-bytes`: read a configuration from stdin, write the package bytes to stdout
 pub fn build_bytes_main() -> i32 {
+    if let Ok(u) = std::env::var("VCHECK_UMASK") {
+        if let Ok(m) = u32::from_str_radix(&u, 8) {
+            unsafe {
+                libc::umask(m as libc::mode_t);
+            }
+        }
+    }
     let mut s = String::new();
     if std::io::Read::read_to_string(&mut std::io::stdin(), &mut s).is_err() {
         return 3;
@@ -36,10 +43,16 @@ pub fn build_bytes_main() -> i32 {
 
 fn build_in_child(cfg: &BuilderConfig, variant: usize) -> Result<Vec<u8>, (String, String)> {
     let exe = std::env::current_exe().map_err(|e| ("harness-io".to_string(), e.to_string()))?;
-    let (tz, cwd) = [("UTC", "/"), ("Asia/Kathmandu", "/tmp"), ("America/St_Johns", "/usr")][variant % 3];
+    let (tz, cwd, lang, home, umask) = [("UTC", "/", "C", "/root", "022"), ("Asia/Kathmandu", "/tmp", "de_DE.UTF-8", "/nonexistent", "077"), ("America/St_Johns", "/usr", "tr_TR.UTF-8", "/tmp", "000")][variant % 3];
     let mut child = std::process::Command::new(exe)
         .arg("build-bytes")
         .env("TZ", tz)
+        .env("LANG", lang)
+        .env("LC_ALL", lang)
+        .env("HOME", home)
+        .env("USER", format!("user{variant}"))
+        .env("HOSTNAME", format!("host{variant}"))
+        .env("VCHECK_UMASK", umask)
         .env("VCHECK_SCRATCH", crate::engine::worker::scratch_dir())
         .current_dir(cwd)
         .stdin(std::process::Stdio::piped())
@@ -91,7 +104,7 @@ impl Property for C11 {
         C11
     }
     fn rule(&self) -> String {
-        "builder configurations with a source date in the past, up to 5 distinct non-root users and groups, file mtimes on both sides of the source date, unsigned or signed with a deterministic key (RSA PKCS#1, Ed25519, ECDSA/RFC6979); each configuration is built 3 times in this process and 3 times in freshly started child processes with different TZ and working directory (hence different hash seeds). Non-trivial = at least 2 distinct non-root owners or a signer; distinct by configuration hash.".into()
+        "builder configurations with a source date in the past, up to 5 distinct non-root users and groups, file mtimes on both sides of the source date, unsigned or signed with a deterministic key (RSA PKCS#1, Ed25519, ECDSA/RFC6979); each configuration is built 3 times sequentially and 3 times concurrently (threads) in this process and 3 times in freshly started child processes with different TZ, working directory, LANG/LC_ALL, HOME, USER, HOSTNAME and umask (hence also different hash seeds). Non-trivial = at least 2 distinct non-root owners or a signer; distinct by configuration hash.".into()
     }
     fn assumptions(&self) -> Vec<String> {
         vec![
@@ -177,6 +190,16 @@ impl Property for C11 {
                 let again = build_and_write(cfg)?.bytes;
                 if again != first {
                     return Err(("not-reproducible".into(), format!("in-process rebuild #{i} differs: {}", super::common::first_diff(&again, &first))));
+                }
+            }
+            // three builds racing in threads of this process
+            let racing: Vec<Result<Vec<u8>, (String, String)>> = std::thread::scope(|sc| {
+                let hs: Vec<_> = (0..3).map(|_| sc.spawn(|| build_and_write(cfg).map(|b| b.bytes))).collect();
+                hs.into_iter().map(|h| h.join().unwrap_or_else(|_| Err(("build-panic".to_string(), "panic in a concurrently building thread".to_string())))).collect()
+            });
+            for (i, r) in racing.into_iter().enumerate() {
+                if r? != first {
+                    return Err(("not-reproducible".into(), format!("concurrent in-process build #{i} differs from the sequential one")));
                 }
             }
             for v in 0..3 {
